@@ -158,6 +158,25 @@ def precedence(tok):
     return out
 
 
+def unary(tok):
+    """spellings of the tokens `From<TokenKind> for UnaryOp` maps to a unary operator"""
+    pe = read("src/parser/expr.rs")
+    if tok is None or pe is None:
+        return None
+    body = fn_body(strip_comments(pe), r"impl\s+From<TokenKind>\s+for\s+UnaryOp")
+    if body is None:
+        return None
+    arms = re.findall(r"TokenKind::([A-Za-z0-9_]+)\s*=>\s*UnaryOp::([A-Za-z0-9_]+)\s*,", body)
+    spell = dict(tok)
+    if not arms or len({t for t, _ in arms}) != len(arms) or any(t not in spell for t, _ in arms):
+        return None
+    # nothing but these arms and the catch-all may stand in the match
+    rest = re.sub(r"TokenKind::([A-Za-z0-9_]+)\s*=>\s*UnaryOp::([A-Za-z0-9_]+)\s*,", "", body)
+    if re.sub(r"\s+", "", rest) not in ("fnfrom(value:TokenKind)->Self{matchvalue{_=>unreachable!(),}}",):
+        return None
+    return [spell[t] for t, _ in arms]
+
+
 def funcs():
     src = read("src/expr.rs")
     if src is None:
@@ -191,6 +210,7 @@ def main():
     tok = tokens()
     prec = precedence(tok)
     fun = funcs()
+    una = unary(tok)
     lines = [
         "/-! GENERATED by tools/gen_tables.py from /repo's working tree (src/lexer/token.rs, src/parser/expr.rs,",
         "src/parser/binoptree.rs, src/expr.rs) — do not edit.  `none` = the source no longer has the shape the",
@@ -200,6 +220,8 @@ def main():
         "def tokenSpellings : Option (List String) := " + lean_opt(tok, lambda x: lean_str(x[1])), "",
         "/-- binary operators: spelling of the token and the number `BinOp::precedence` gives the operator it becomes -/",
         "def binopPrecedence : Option (List (String × Nat)) := " + lean_opt(prec, lambda x: "(%s, %d)" % (lean_str(x[0]), x[1])), "",
+        "/-- the spellings of the tokens that are unary operators (`From<TokenKind> for UnaryOp`) -/",
+        "def unaryOperators : Option (List String) := " + lean_opt(una, lambda x: lean_str(x)), "",
         "/-- `FUNC_TABLE`: name and number of arguments, in table order -/",
         "def funcTable : Option (List (String × Nat)) := " + lean_opt(fun, lambda x: "(%s, %d)" % (lean_str(x[0]), x[1])), "",
         "end Dtr.Src", ""]
@@ -207,7 +229,7 @@ def main():
     os.makedirs(os.path.dirname(OUT), exist_ok=True)
     if not os.path.exists(OUT) or open(OUT).read() != text:
         open(OUT, "w").write(text)
-    print("gen_tables: tokens=%s precedence=%s functions=%s" % tuple("translated" if t is not None else "NOT-RECOGNISED" for t in (tok, prec, fun)))
+    print("gen_tables: tokens=%s precedence=%s unary=%s functions=%s" % tuple("translated" if t is not None else "NOT-RECOGNISED" for t in (tok, prec, una, fun)))
     return 0
 
 
